@@ -120,6 +120,42 @@ def config_stream(rep, rng, quick):
             main_res.append(ref_eval.canon(r))
         except Exception as e:
             main_res.append('EXC:' + type(e).__name__)
+    # ---- the memo tables of the shared objects versus Model/Memo.lean (keys in insertion order) and versus
+    #      recomputation (TableOK: every stored table is what calc_wce gives now) ----
+    import numpy as np
+    from gepard import wilson
+    which = {('predict', 'ImH'): 'wce', ('predict', 'XGAMMA', 'gammastarp2gammap'): 'wce',
+             ('predict', 'XGAMMA', 'gammastarp2rho0p'): 'wce_dvmp', ('DISF2',): 'wce_dis'}
+    mlines, mmeta = [], []
+    for ci, th in sorted(shared.items()):
+        for attr, pc in (('wce', 'DVCS'), ('wce_dvmp', 'DVMP'), ('wce_dis', 'DIS')):
+            hist = []
+            for j, r in zip(jobs, main_res):
+                if j['cfg'] != ci or r.startswith('EXC:'):
+                    continue
+                k = (j['op'], j['observable'], j['point'].get('process')) if j.get('observable') == 'XGAMMA' else \
+                    ((j['op'], j['observable']) if j['op'] == 'predict' else (j['op'],))
+                if which.get(k) == attr:
+                    hist.append(repr(float(j['point']['Q2'])))
+            tbl = getattr(th, attr, None)
+            mlines.append('c12.memo ' + ' '.join(hist))
+            mmeta.append((ci, attr, pc, th, hist, None if tbl is None else [repr(float(k)) for k in tbl]))
+    mout = common.run_driver(mlines)
+    for (ci, attr, pc, th, hist, keys), o in zip(mmeta, mout):
+        rep.case('memo-table', (ci, attr, tuple(hist)), sample=dict(config=ci, table=attr, lookups=hist, keys=keys) if ci == 0 else None)
+        if keys is None or keys != o.split():
+            rep.violation('memo/keys/' + attr, 'table %s of the shared theory (configuration %d) holds the keys %s after the lookups %s; '
+                          'a table keyed by Q2 alone holds %s' % (attr, ci, keys, hist, o.split()),
+                          dict(config=ci, table=attr, lookups=hist, keys=keys, model=o.split()), found_input=False)
+            continue
+        for q, stored in getattr(th, attr).items():
+            fresh = wilson.calc_wce(th, q, pc)
+            fresh = fresh[0, :, :] if attr == 'wce_dis' else fresh
+            if not np.array_equal(np.asarray(stored), np.asarray(fresh)):
+                rep.violation('memo/stale/' + attr, 'table %s[%r] of the shared theory (configuration %d) is not what '
+                              'wilson.calc_wce(th, %r, %r) gives now: max deviation %g' % (
+                                  attr, q, ci, q, pc, float(np.max(np.abs(np.asarray(stored) - np.asarray(fresh))))),
+                              dict(config=ci, table=attr, Q2=q, theory=jobs[0]['theory']['bases']))
     order = list(range(len(jobs)))[::-1]
     fd, path = tempfile.mkstemp(suffix='.json', dir=os.path.join(common.VERIF, 'replays'))
     os.close(fd)
